@@ -22,6 +22,22 @@ import (
 //go:embed testdata/world.json
 var worldJSON []byte
 
+//go:embed testdata/world.json.signer
+var signerJSON []byte
+
+// frozenSigner returns the frozen world's collateral signing key and the texts of the two signed members.
+func frozenSigner(t testing.TB) (key []byte, tcb, qe string) {
+	var s struct {
+		Key []byte `json:"signer_pkcs8"`
+		Tcb string `json:"tcb_member"`
+		Qe  string `json:"qe_member"`
+	}
+	if err := json.Unmarshal(signerJSON, &s); err != nil {
+		t.Fatal(err)
+	}
+	return s.Key, s.Tcb, s.Qe
+}
+
 func frozen(t testing.TB) *world.Case {
 	var c world.Case
 	if err := json.Unmarshal(worldJSON, &c); err != nil {
@@ -98,6 +114,35 @@ func FuzzCollateral(f *testing.F) {
 		cc.Resp[tcbURL] = r
 		r = cc.Resp[qeURL]
 		r.B = qe
+		cc.Resp[qeURL] = r
+		if p := props.VerifyProblem(cc); p != "" {
+			t.Fatal(p)
+		}
+	})
+}
+
+// FuzzSignedCollateral: the member texts are mutated and then SIGNED by the genuine collateral signer, so every input passes
+// the signature gate and reaches the evaluation code (C10: no crash; C03/C04/C07: library accepts => reference accepts).
+func FuzzSignedCollateral(f *testing.F) {
+	c := frozen(f)
+	key, tcbM, qeM := frozenSigner(f)
+	var tcbURL, qeURL string
+	for u := range c.Resp {
+		switch {
+		case contains(u, "/tcb?"):
+			tcbURL = u
+		case contains(u, "/qe/identity"):
+			qeURL = u
+		}
+	}
+	f.Add([]byte(tcbM), []byte(qeM))
+	f.Fuzz(func(t *testing.T, tcb, qe []byte) {
+		cc := c.Clone()
+		r := cc.Resp[tcbURL]
+		r.B = props.SignedBody("tcbInfo", string(tcb), key)
+		cc.Resp[tcbURL] = r
+		r = cc.Resp[qeURL]
+		r.B = props.SignedBody("enclaveIdentity", string(qe), key)
 		cc.Resp[qeURL] = r
 		if p := props.VerifyProblem(cc); p != "" {
 			t.Fatal(p)
